@@ -85,7 +85,7 @@ func (line *Line) ContainsLine(other *Line) bool {
 	otherNumSegments := other.NumSegments()
 	verifSteps := 0
 	for i := 1; i < otherNumSegments; i++ {
-		verifSteps = verifStep("line.go:ContainsLine", verifSteps, (lineNumSegments+1)*(otherNumSegments+1))
+		verifSteps = verifStep("line.go:ContainsLine", verifSteps, (lineNumSegments+1)*(otherNumSegments+1), line, other)
 		lineSeg := line.SegmentAt(segIdx)
 		otherSeg := other.SegmentAt(i)
 		if lineSeg.ContainsSegment(otherSeg) {
